@@ -29,3 +29,12 @@ def gen(rng, tier):
     cases = [cocases.gen_case(rng) for _ in range(n)]
     cases += [cocases.leak_case(rng) for _ in range(n // 20)]
     return cases
+
+PINNED = ['C08_holds', 'C08_message']
+LEVEL_TEXT = "Unbounded theorem (all bodies/histories): resume arguments are what the body sees, yielded values are what resume reports, a return is reported once as Complete, a panic as Error carrying the panic's message (literal or formatted), nothing unwinds into the caller. Same simulation proof and tie as C07."
+LEVEL_NOTE = ("Trusted: Coq kernel + vm_compute; hand transcription of state.rs / korosensei.rs (raw_resume) / suspender.rs / "
+              "mod.rs (resume_with) / listener.rs (broadcast) / catch! (model Co.v) validated on sampled histories only; "
+              "corosensei's context switch is modelled as 'a yield returns control to resume_with with the yielded value'; "
+              "single thread; premise for C07/C08: bodies do not contain the internal IUnreachable marker (never generated). "
+              "No axioms (closed under the global context).")
+TECHNIQUE = "Coq proof (simulation invariant between a Gallina model and a specification tracker) + differential correspondence inside Coq"
